@@ -1,15 +1,15 @@
 CONSTANTS
   Ext <- AllExtensions
   Conv = "bundled"
-  Variants = FALSE
+  Variants = TRUE
   Syntax <- SyntaxAsExt
   Defects = FALSE
-  Mode = "bfs"
-  Kernel = "ref"
-  MaxBlocks = 2
-  MaxItems = 3
-  MaxComps = 3
-INIT Init
+  Mode = "sim"
+  Kernel = "full"
+  MaxBlocks = 7
+  MaxItems = 6
+  MaxComps = 8
+INIT InitCRLF
 NEXT Next
 INVARIANTS InvConsistent InvValidRefs InvValidity Emit
 CHECK_DEADLOCK FALSE
